@@ -81,6 +81,15 @@ def reset_globals():
 
     np.seterr(**_pristine["np_err"])
     has_parameter.cache_clear()
+    try:  # value-keyed caches in the library are process-global state too (see DESIGN.md §2.3)
+        from magpylib._src.defaults import defaults_utility as _du
+
+        for name in ("color_validator", "_color_validator"):
+            fn = getattr(_du, name, None)
+            if hasattr(fn, "cache_clear"):
+                fn.cache_clear()
+    except ImportError:
+        pass
     try:
         _disp.ctx.reset(reset_show_return_value=True)
     except TypeError:  # signature differs
